@@ -27,9 +27,11 @@ Fixpoint lookup {A} (d : A) (t : list (path * A)) (p : path) : A :=
   | (q, a) :: r => if path_eqb p q then a else lookup d r p
   end.
 
-Definition table_oracles (leafs : list (path * lout)) (perms : list (path * list (nat * nat)))
+Definition table_oracles_v (recompute : bool) (leafs : list (path * lout)) (perms : list (path * list (nat * nat)))
            (bests : list (path * nat)) : oracles :=
-  mkO (lookup LMissing leafs) (lookup [] perms) (lookup 0%nat bests).
+  mkO (lookup LMissing leafs) (lookup [] perms) (lookup 0%nat bests) recompute.
+(* the code as found *)
+Definition table_oracles := table_oracles_v false.
 
 Definition eps : Q := 1 # 1000000000.
 
@@ -59,14 +61,14 @@ Definition edx_agree (m o : edx) : bool :=
 Definition pipe_fuel : nat := 12.
 
 Record pcase := mkCase {
-  pc_debug : bool; pc_credit : option Q; pc_msgflag : bool;
+  pc_recompute : bool; pc_debug : bool; pc_credit : option Q; pc_msgflag : bool;
   pc_grader : grader; pc_ans : ans; pc_input : input; pc_attempt : option Z; pc_log : str;
   pc_leafs : list (path * lout); pc_perms : list (path * list (nat * nat)); pc_bests : list (path * nat);
   pc_observed : option edx           (* None: the call raised *)
 }.
 
 Definition run_case (c : pcase) : out edx :=
-  call pipe_fuel (table_oracles (pc_leafs c) (pc_perms c) (pc_bests c))
+  call pipe_fuel (table_oracles_v (pc_recompute c) (pc_leafs c) (pc_perms c) (pc_bests c))
        (mkC (pc_debug c) (match pc_credit c with Some v => Some (fun _ => v) | None => None end) (pc_msgflag c))
        (pc_grader c) (pc_ans c) (pc_input c) (pc_attempt c) (pc_log c).
 
